@@ -689,6 +689,7 @@ func conflictShape(c *Ctx, rule string, fn *ssa.Function) {
 
 func C04(c *Ctx) {
 	c.Note("that all writes become visible together for concurrent readers (C05); that a failed WAL append leaves no trace inside LSM.SetBatch; value equality")
+	oracleSeedNoWrapGroup(c, "K5.oracle-seed-does-not-wrap")
 	const r1 = "K4.single-increasing-version"
 	c.Rule(r1, "the commit version is the result of exactly one atomic Add(1) on oracle.nextTxnTs executed under oracle.Mutex; nextTxnTs is otherwise only stored by newOracle/initCommitState")
 	oracleCritical(c, r1, []string{"alloc"})
